@@ -537,6 +537,21 @@ fn mode_one(args: &Args) {
                 };
                 let _ = scen_optimise(&m, &setup, &spec, None, out);
             }
+            "proof" => {
+                // --kind 0|1|2 (scaffold, full, hints); optional --obj/--max/--lus for optimisation
+                let kind: u8 = args.kv.get("kind").map(|s| s.parse().unwrap()).unwrap_or(2);
+                let opt = args.kv.get("obj").map(|o| OptSpec {
+                    maximise: args.kv.get("max").map(|s| s == "1").unwrap_or(false),
+                    lus: args.kv.get("lus").map(|s| s == "1").unwrap_or(false),
+                    objective: Toks::new(o).view(),
+                });
+                let mut setup2 = Setup { opts: setup.opts.clone(), bspec: setup.bspec.clone(), style_seed: setup.style_seed };
+                setup2.opts.resolver_uip = true;
+                let dir = std::path::PathBuf::from(format!("/verif/.work/proofs-{}", std::process::id()));
+                std::fs::create_dir_all(&dir).unwrap();
+                scen_proof(&m, &setup2, kind, opt.as_ref(), &dir, out);
+                let _ = std::fs::remove_dir_all(&dir);
+            }
             "assume" => {
                 let atoms = Toks::new(args.kv.get("assume").expect("--assume")).atoms();
                 scen_assume(&m, &setup, &[(atoms, true)], out)
